@@ -184,7 +184,7 @@ class ShortStream:
         return self.src.readline(self.k if n is None or n < 0 else min(n, self.k))
 
 
-DELIVERIES = ['bytesio-offset', 'plain', 'body-read-first', 'body-sniffed-first', 'one-byte-reads', 'half-reads', 'chunked', 'chunked-3', 'chunked-upper', 'chunked-emptycl', 'chunked-withcl']
+DELIVERIES = ['bytesio-offset', 'plain', 'body-read-first', 'body-sniffed-first', 'one-byte-reads', 'half-reads', 'chunked', 'chunked-3', 'chunked-upper', 'chunked-emptycl', 'chunked-withcl', 'chunked-smallcl']
 
 
 def observe_forms(Request, body_text, qs='', ctype='rotate', delivery='plain'):
@@ -195,7 +195,7 @@ def observe_forms(Request, body_text, qs='', ctype='rotate', delivery='plain'):
     env = {'QUERY_STRING': qs, 'CONTENT_LENGTH': str(len(body)), 'wsgi.input': io.BytesIO(body), 'REQUEST_METHOD': 'POST'}
     if ctype is not None:
         env['CONTENT_TYPE'] = ctype
-    if delivery in ('chunked', 'chunked-3', 'chunked-upper', 'chunked-emptycl', 'chunked-withcl'):
+    if delivery in ('chunked', 'chunked-3', 'chunked-upper', 'chunked-emptycl', 'chunked-withcl', 'chunked-smallcl'):
         # Transfer-Encoding: chunked, no Content-Length (one chunk / chunks of three bytes / chunks of 11 bytes with the sizes in
         # upper-case hex and zero-padded)
         step = max(1, len(body)) if delivery == 'chunked' else (3 if delivery == 'chunked-3' else 11)
@@ -206,6 +206,8 @@ def observe_forms(Request, body_text, qs='', ctype='rotate', delivery='plain'):
             env['CONTENT_LENGTH'] = ''        # (PEP 3333: the variable may be empty or absent)
         if delivery == 'chunked-withcl':
             env['CONTENT_LENGTH'] = str(len(raw))      # both indications: the transfer coding decides
+        if delivery == 'chunked-smallcl':
+            env['CONTENT_LENGTH'] = str(max(1, len(body) // 2))      # ... also when the Content-Length is smaller than the form (RFC 7230 3.3.3)
         env['HTTP_TRANSFER_ENCODING'] = 'chunked'
         env['wsgi.input'] = io.BytesIO(raw)
     if delivery == 'bytesio-offset':
@@ -542,6 +544,7 @@ def replay(case):
                'bytesio-offset': ' (wsgi.input is a BytesIO of the whole connection, positioned at the start of the body)',
                'chunked-upper': ' (sent with Transfer-Encoding: chunked, 11-byte chunks, sizes in upper-case hex)',
                'chunked-emptycl': ' (sent with Transfer-Encoding: chunked in 11-byte chunks, the environ has CONTENT_LENGTH = "")',
+               'chunked-smallcl': ' (sent with Transfer-Encoding: chunked in 11-byte chunks AND a Content-Length header of half the length of the form: the transfer coding decides, RFC 7230 3.3.3)',
                'chunked-withcl': ' (sent with Transfer-Encoding: chunked in 11-byte chunks AND a Content-Length header giving the length of the encoded stream)',
                'chunked': ' (sent with Transfer-Encoding: chunked, one chunk)', 'chunked-3': ' (sent with Transfer-Encoding: chunked, chunks of 3 bytes)',
                'one-byte-reads': ' (wsgi.input answers every read with one byte)', 'half-reads': ' (wsgi.input answers every read with at most half of the body)'}.get(case.get('delivery'), '')
